@@ -3,11 +3,13 @@
 set -u
 cd "$(dirname "$0")"
 export GOFLAGS=-mod=mod GOPROXY=off GOSUMDB=off GOTOOLCHAIN=local CGO_ENABLED=${CGO_ENABLED:-1}
-mkdir -p .build
-python3 driver/overlay.py "$PWD/.build/overlay" >/dev/null || exit 2
+B="${VERIF_BUILD:-$PWD/.build}"
+mkdir -p "$B"
+python3 driver/overlay.py "$B/overlay" >/dev/null || exit 2
 cd sim
-out=../.build/htsim.test
+out="$B/htsim.test"
 extra=""
-if [ "${1:-}" = "race" ]; then out=../.build/htsim.race.test; extra="-race"; fi
-go1.26.8 test -c $extra -tags verif -overlay ../.build/overlay/overlay.json -o $out . 2>../.build/build.log || { cat ../.build/build.log >&2; exit 2; }
+if [ "${1:-}" = "race" ]; then out="$B/htsim.race.test"; extra="-race"; fi
+go1.26.8 test -c $extra -tags verif -overlay "$B/overlay/overlay.json" -o "$out.new" . 2>"$B/build.log" || { cat "$B/build.log" >&2; exit 2; }
+mv -f "$out.new" "$out"
 exit 0
